@@ -18,7 +18,6 @@ import json
 import os
 import struct
 import sys
-import tempfile
 import traceback
 
 REPO = os.environ.get('VERIF_REPO', '/repo')
